@@ -48,8 +48,10 @@ NAMES = [[1], [1, 2], [1, 3], [1, 2, 4], [1, 2, 5], [1, 3, 4], [6]]
 LIVES = [23, 53, 103, 203, 503]
 LATS = [0, 0, 0, 0, 0, 14, 44, 104, 304]
 V2_VERDICTS = ['PASS'] * 8 + ['ALLOW_BYPASS', 'FAIL', 'TIMEOUT', 'SILENCE', 'RAISE_TIMEOUT', 'RAISE_OTHER']
-V1_VERDICTS = ['PASS'] * 8 + ['FAIL', 'FAIL', 'NONE', 'ZERO', 'ONE', 'RAISE_TIMEOUT', 'RAISE_OTHER']
-V1_TRUTH = {'PASS': True, 'FAIL': False, 'NONE': None, 'ZERO': 0, 'ONE': 1}
+V1_VERDICTS = ['PASS'] * 7 + ['DEFAULT', 'FAIL', 'FAIL', 'NONE', 'ZERO', 'ONE', 'RAISE_TIMEOUT', 'RAISE_OTHER']
+# DEFAULT: no validator is supplied, the application-wide data_validator (sha256_digest_checker) decides; every
+# Data of the harness carries a valid DigestSha256 signature, so it accepts (its calls are not logged)
+V1_TRUTH = {'PASS': True, 'FAIL': False, 'NONE': None, 'ZERO': 0, 'ONE': 1, 'DEFAULT': True}
 T0 = 1000.0
 
 
@@ -144,7 +146,8 @@ def gen_history(rng, fe, n_events=None):
             evs.append([t, 't'])
     t_end = max(t, horizon) + 400
     evs.append([t_end - t_end % 10 + 10, 't'])
-    return {'fe': fe, 'datas': datas, 'events': evs, 'tie': None}
+    return {'fe': fe, 'datas': datas, 'events': evs, 'tie': None,
+            'bad_sig': fe == 'v1' and rng.random() < 0.15}
 
 
 def gen_tie(rng, fe):
@@ -219,6 +222,8 @@ def shrink(case):
         c['events'] = e2
         c.update(kw)
         return c
+    if case.get('bad_sig'):
+        yield mk(evs, bad_sig=False)
     if case.get('tie') is None:
         for j in range(_n_int(evs)):
             yield mk(_drop_interest(evs, j))
@@ -295,6 +300,8 @@ class Run:
         enc, types, _, _ = _lib()
         run = self
         lat, verdict = spec['lat'], spec['verdict']
+        if verdict == 'DEFAULT':
+            return None
 
         async def body(sig):
             d = run.sig2data.get(bytes(sig.signature_value_buf) if sig.signature_value_buf is not None else b'', -1)
@@ -416,6 +423,9 @@ class Run:
             self.rig = rig
             self.wires = [bytes(enc.make_data(mk_name(enc, d['name']), enc.MetaInfo(), b'D%d' % d['content'],
                                               signer=Signer())) for d in case['datas']]
+            if case.get('bad_sig'):
+                # every Data carries a corrupted DigestSha256 signature (matters to the legacy default validator only)
+                self.wires = [w[:-1] + bytes([w[-1] ^ 0xff]) for w in self.wires]
             self.sig2data = {}
             for k, w in enumerate(self.wires):
                 _, _, _, sig = enc.parse_data(w)
@@ -445,6 +455,7 @@ class Run:
                     rig.loop.call_now(rig.app._clean_up)
                 steps.append(self.observe())
             res = {'steps': steps, 'ints': [self.outcome(i) for i in range(len(self.tasks))],
+                   'sent': len(rig.face.sent),
                    'vcalls': sorted(self.vcalls), 'loop_errors': [list(e) for e in self.internal_errors()],
                    'receive_raised': receive_raised}
             self.finish(res)
@@ -469,8 +480,19 @@ def _dg(dig):
 
 def model_verdict(fe, v):
     if fe == 'v1':
-        return {'NONE': 'FAIL', 'ZERO': 'FAIL', 'ONE': 'PASS'}.get(v, v)
+        return {'NONE': 'FAIL', 'ZERO': 'FAIL', 'ONE': 'PASS', 'DEFAULT': 'PASS'}.get(v, v)
     return v
+
+
+def eff_verdict(case, spec):
+    """'DEFAULT' (legacy, no validator supplied): what sha256_digest_checker says about the Data of this case"""
+    if spec['verdict'] == 'DEFAULT':
+        return 'FAIL' if case.get('bad_sig') else 'PASS'
+    return spec['verdict']
+
+
+def lat_of(spec):
+    return 0 if spec['verdict'] == 'DEFAULT' else spec['lat']
 
 
 def life_of(fe, spec):
@@ -486,7 +508,7 @@ def model_events(case):
         if k == 'x':
             s = ev[2]
             toks.append(f"{t}@x:{_nm(s['name'])}:{_dg(s['dig'])}:{1 if s['cbp'] else 0}:{life_of(fe, s)}:"
-                        f"{model_verdict(fe, s['verdict'])}:{s['lat']}")
+                        f"{model_verdict(fe, eff_verdict(case, s))}:{lat_of(s)}")
         elif k == 'd':
             if ev[2] < len(case['datas']):
                 d = case['datas'][ev[2]]
@@ -536,6 +558,10 @@ def parse_state(s):
 def model_obs(answer, case, impl):
     assert answer.startswith('ok '), answer
     steps, ints, vcalls = [p.strip() for p in answer[3:].split('|')]
+    specs = [e[2] for e in case['events'] if e[1] == 'x']
+    dflt = {i for i, sp in enumerate(specs) if sp['verdict'] == 'DEFAULT'}      # calls of the default validator are not logged
+    vc = [] if vcalls == '.' else sorted([int(x) for x in s.split('.')] for s in vcalls.split())
+    vcalls = ' '.join('.'.join(str(x) for x in c) for c in vc if c[0] not in dflt) or '.'
     return {'steps': [] if steps == '.' else [[int(x) for x in s.split('/')] for s in steps.split()],
             'ints': [] if ints == '.' else [parse_state(s.split('=')[1]) for s in ints.split()],
             'vcalls': [] if vcalls == '.' else sorted([int(x) for x in s.split('.')] for s in vcalls.split())}
@@ -572,7 +598,9 @@ def spec_allowed(case, i, strict, enforce=None):
     fe = case['fe']
     evs = case['events']
     pos = [j for j, e in enumerate(evs) if e[1] == 'x'][i]
-    spec = evs[pos][2]
+    spec = dict(evs[pos][2])
+    spec['lat'] = lat_of(spec)
+    spec['verdict'] = eff_verdict(case, spec)
     dl = evs[pos][0] + life_of(fe, spec)
 
     def timers(cfg, t):
@@ -601,7 +629,7 @@ def spec_allowed(case, i, strict, enforce=None):
                     if e[1] == 'd' and e[2] < len(case['datas']) and spec_matches(spec, case['datas'][e[2]], e[2]):
                         d = case['datas'][e[2]]['content']
                         for enf in (enforce if enforce is not None else ((True,) if strict else (True, False))):
-                            nxt.extend(timers(('V', d, t + spec['lat'], enf), t))
+                            nxt.extend(timers(('V', d, t + lat_of(spec), enf), t))
                     elif e[1] == 'n' and e[2] == spec['name'] and e[3] == spec['dig']:
                         nxt.append(('F', ['nack', e[4], t]))
                     elif (e[1] == 'c' and e[2] == i) or e[1] == 's':
@@ -673,6 +701,8 @@ def oracle_common(case, impl, strict, enforce=None):
         why = oracle_tie(case, impl)
         if why:
             return why
+    if impl.get('sent', len(impl['ints'])) != len(impl['ints']):
+        return f"{impl['sent']} packets were written to the face for {len(impl['ints'])} expressed Interests"
     if impl['steps'] and impl['steps'][-1][1] != 0:
         return f"{impl['steps'][-1][1]} PIT entries remain after every Interest has finished"
     if impl['steps'] and impl['steps'][-1][0] != 0:
